@@ -83,6 +83,7 @@ def run(ctx):
             a = rng.choice('SSF')
             steps.append('%s%d' % (a, k))
             lc = rng.randrange(5); lp = rng.randrange(5 - lc); pb = rng.randrange(5)
+            if rng.random() < 0.4: steps.append('T%d' % rng.choice([1, 2, 3, 5, 8, 11, 13]))      # a few bytes into whatever comes next (a Block Header after a full flush), then the update request
             if a == 'S': steps.append('Ulzma2:dict=4KiB,lc=%d,lp=%d,pb=%d' % (lc, lp, pb))
             else: steps.append(rng.choice(['Ulzma2:dict=8KiB,lc=%d,lp=%d,pb=%d' % (lc, lp, pb), 'Udelta:dist=%d+lzma2:dict=4KiB' % rng.randrange(1, 257)]))
         steps.append('R%d' % left)
